@@ -175,6 +175,9 @@ OPS = {
     "reset!1": ("reset!", 1),
     "cas0->7": ("cas", 0, 7),
     "cas1->8": ("cas", 1, 8),
+    "cas1->9": ("cas", 1, 9),
+    "cas[1]->8": ("casv", 8),  # expected value: a FRESH vector [1] (equal to, never identical with, the stored one)
+    "cas[1]->9": ("casv", 9),
     "swap-vals!inc": ("swap-vals!", "inc"),
     "reset-vals!2": ("reset-vals!", 2),
     "deref": ("deref",),
@@ -203,6 +206,10 @@ def apply_op(a, op):
             return ("ok", core("reset!")(a, op[1]))
         if kind == "cas":
             return ("ok", core("compare-and-set!")(a, op[1], op[2]))
+        if kind == "casv":
+            from basilisp.lang import vector as vec
+
+            return ("ok", core("compare-and-set!")(a, vec.v(1), op[1]))
         if kind == "swap-vals!":
             return ("ok", core("swap-vals!")(a, FUNCS[op[1]]))
         if kind == "reset-vals!":
@@ -249,6 +256,11 @@ def model_step(state, op, validator):
             return state, ("exc", "ExceptionInfo"), None
         res = new if kind != "reset-vals!" else ("vec", new, state)
         return new, ("ok", res), (state, new)
+    if kind == "casv":
+        from basilisp.lang import vector as vec
+
+        op = ("cas", vec.v(1), op[1])
+        kind = "cas"
     if kind == "cas":
         old, new = op[1], op[2]
         if not valid(new):
@@ -470,6 +482,14 @@ def scenarios(tier):
     # type-sensitive: atom holding 1, reset to 1.0 / true races with a type-observing swap
     for a, b in [("swap!typeobs", "reset!1.0"), ("swap!typeobs", "reset!1"), ("cas1->8", "reset!1.0"), ("swap-vals!inc", "reset!1.0"), ("Atom.swap-inc", "reset!1.0"), ("swap!typeobs", "swap!typeobs")]:
         scs.append((dict(init=1, validator="none", watch=True, threads=[[a], [b]]), 2 if quick else 3))
+    # compare-and-set! whose expected value is EQUAL TO BUT NOT IDENTICAL WITH the stored one (1 vs 1.0, two [1] vectors):
+    # the equality path of compare-and-set must be as atomic as the identity path
+    from basilisp.lang import vector as vec
+
+    for a, b in [("cas1->8", "reset!5"), ("cas1->8", "swap!inc"), ("cas1->8", "cas1->9"), ("cas1->8", "reset-vals!2"), ("cas1->8", "Atom.swap-inc")]:
+        scs.append((dict(init=1.0, validator="none", watch=True, threads=[[a], [b]]), 2 if quick else 3))
+    for a, b in [("cas[1]->8", "reset!5"), ("cas[1]->8", "cas[1]->9"), ("cas[1]->8", "reset-vals!2")]:
+        scs.append((dict(init=vec.v(1), validator="none", watch=True, threads=[[a], [b]]), 2 if quick else 3))
     # validator rejecting values >= 3, starting at 1
     vops = ["swap!inc", "swap!add10", "reset!5", "cas1->8", "deref"] if quick else ["swap!inc", "swap!add10", "reset!5", "reset!1", "swap-vals!inc", "cas1->8", "deref", "Atom.swap-inc", "Atom.reset9"]
     for a, b in itertools.combinations_with_replacement(vops, 2):
